@@ -83,7 +83,8 @@ func c04Case(c *Ctx) *Result {
 		x.SetupPlan = func(fp *FaultPlan) {
 			fp.Rules = []*Rule{{Dir: int(dir), Kind: kind, Seq: -1, SIDIdx: -1, Action: "mutate", Count: 1 + r.Intn(2), Mut: &spec, Skip: skip}}
 			if spec.Kind == "reflect" {
-				fp.Rules = []*Rule{{Dir: int(dir), Kind: "data", Seq: -1, SIDIdx: -1, Action: "reflect", Count: 3 + r.Intn(12), DelayMs: pick(r, 0, 0, 1)}}
+				fp.Rules = []*Rule{{Dir: int(dir), Kind: pick(r, "data", "data", "ack"), Seq: -1, SIDIdx: -1, Action: "reflect", Count: 3 + r.Intn(12), DelayMs: pick(r, 0, 0, 1),
+					ReflectAny: r.Intn(2) == 0, Skip: r.Intn(6)}}
 			}
 		}
 	} else {
